@@ -80,8 +80,13 @@ def build_harness(variant="asan"):
     """Compile /repo's sources and link the harness; cached by the hash of the sources.
     variant: asan (ASan+UBSan), tsan, plain (for valgrind / nm)."""
     import hashlib
-    key = _hash_tree([os.path.join(REPO, "include"), os.path.join(REPO, "src"), HARNESS_SRC])
-    key = hashlib.sha256((key + open(os.path.abspath(__file__)).read()).encode()).hexdigest()[:16] + "-" + variant   # build recipe is part of the key
+    from . import buildcfg
+    try:
+        cfg = buildcfg.project_config(REPO)       # sources, definitions, include directories, code-generation options: asked from the library's own build system
+    except buildcfg.ConfigError as e:
+        raise BuildError(e.what, e.output)
+    key = _hash_tree([os.path.join(REPO, "include"), os.path.join(REPO, "src"), HARNESS_SRC] + [s for s in cfg["sources"] if not s.startswith(os.path.join(REPO, "src") + os.sep)])
+    key = hashlib.sha256((key + cfg["key"] + cfg["text"] + open(os.path.abspath(__file__)).read() + open(buildcfg.__file__).read()).encode()).hexdigest()[:16] + "-" + variant   # build recipe is part of the key
     out = os.path.join(CACHE, "h-" + key)
     exe = os.path.join(out, "harness")
     with Lock("harness-" + variant):
@@ -90,17 +95,18 @@ def build_harness(variant="asan"):
         tmp = out + ".tmp%d" % os.getpid()
         shutil.rmtree(tmp, ignore_errors=True)
         os.makedirs(os.path.join(tmp, "obj"))
+        std = cfg["std"]
         if variant == "asan":
-            flags = "-std=c++17 -O0 -g -fsanitize=address,undefined -fno-sanitize=vptr,alignment,nonnull-attribute -fno-sanitize-recover=all"
+            flags = std + " -O0 -g -fsanitize=address,undefined -fno-sanitize=vptr,alignment,nonnull-attribute -fno-sanitize-recover=all"
         elif variant == "tsan":
-            flags = "-std=c++17 -O0 -g -fsanitize=thread -fno-builtin"   # gcc does not instrument inlined builtin memcpy: a race through memcpy would go unseen
+            flags = std + " -O0 -g -fsanitize=thread -fno-builtin"   # gcc does not instrument inlined builtin memcpy: a race through memcpy would go unseen
         else:
-            flags = "-std=c++17 -O0 -g"
-        flags += " -I%s/include" % REPO
-        srcs = sorted(f for f in os.listdir(os.path.join(REPO, "src")) if f.endswith(".cpp"))
+            flags = std + " -O0 -g"
+        flags += " " + buildcfg.gcc_flags(cfg)
+        srcs = cfg["sources"]
         procs = []
         for f in srcs:
-            cmd = "g++ %s -c %s/src/%s -o %s/obj/%s.o" % (flags, REPO, f, tmp, f[:-4])
+            cmd = "g++ %s -c %s -o %s/obj/%s.o" % (flags, f, tmp, os.path.relpath(f, REPO).replace(os.sep, "_")[:-4])
             procs.append((f, subprocess.Popen(cmd, shell=True, stdout=subprocess.PIPE, stderr=subprocess.STDOUT)))
         errs = []
         for f, p in procs:
@@ -120,8 +126,8 @@ def build_harness(variant="asan"):
         # dumper (constants reflected from the headers), optional
         dsrc = os.path.join(HARNESS_SRC, "dumper.cpp")
         if os.path.exists(dsrc):
-            cmd = "g++ -std=c++17 -O0 -I%s/include -fno-access-control -Wno-invalid-offsetof %s %s/obj/*.o %s -o %s/dumper" % (
-                REPO, dsrc, tmp, "-fsanitize=address,undefined" if variant == "asan" else ("-fsanitize=thread" if variant == "tsan" else ""), tmp)
+            cmd = "g++ %s -O0 %s -fno-access-control -Wno-invalid-offsetof %s %s/obj/*.o %s -o %s/dumper" % (
+                std, buildcfg.gcc_flags(cfg), dsrc, tmp, "-fsanitize=address,undefined" if variant == "asan" else ("-fsanitize=thread" if variant == "tsan" else ""), tmp)
             r = subprocess.run(cmd, shell=True, stdout=subprocess.PIPE, stderr=subprocess.STDOUT)
             if r.returncode != 0:
                 shutil.rmtree(tmp, ignore_errors=True)
